@@ -279,14 +279,15 @@ func RunUciScript(sc *Scenario) *UciRunOut {
 				// one it had, or (for a position command) start + legal prefix
 				want := []string{before}
 				if len(tok) > 0 && tok[0] == "position" {
-					full, prefix, ok := parsePositionCmd(st.Line)
+					// acceptable: the position held before, or a COMPLETE reading
+					// of the line (strict, or lenient: missing fen fields get
+					// defaults, surplus fields are ignored, a move may be found
+					// inside a token with stray bytes). A position made of only a
+					// prefix of the listed moves was never validly set.
+					full, _, ok := parsePositionCmd(st.Line)
 					if ok && full != nil {
 						want = append(want, full.Fen())
-					} else if prefix != nil {
-						want = append(want, prefix.Fen())
 					}
-					// a tolerant reading of a damaged fen (missing fields get
-					// defaults, surplus fields are ignored) is acceptable too
 					want = append(want, tolerantPositions(st.Line)...)
 				}
 				if len(tok) > 0 && tok[0] == "ucinewgame" {
@@ -426,6 +427,17 @@ func tolerantPositions(line string) []string {
 	if len(tok) < 2 || tok[0] != "position" {
 		return nil
 	}
+	// a lenient reader may ignore everything from a second "moves" keyword on
+	seenMoves := false
+	for k, t := range tok {
+		if t == "moves" {
+			if seenMoves {
+				tok = tok[:k]
+				break
+			}
+			seenMoves = true
+		}
+	}
 	var starts []*rules.Pos
 	j := 2
 	switch tok[1] {
@@ -445,19 +457,26 @@ func tolerantPositions(line string) []string {
 	}
 	var out []string
 	for _, p := range starts {
-		out = append(out, p.Fen())
-		if j < len(tok) && tok[j] == "moves" {
+		if j >= len(tok) {
+			out = append(out, p.Fen())
+			continue
+		}
+		if tok[j] == "moves" {
 			q := p.Clone()
+			complete := true
 			for _, m := range tok[j+1:] {
 				if q.Play(m) != nil {
 					// a lenient reader may find the move inside a token with stray bytes
 					sub := reMoveInToken.FindString(strings.ToLower(m))
 					if sub == "" || q.Play(sub) != nil {
+						complete = false
 						break
 					}
 				}
 			}
-			out = append(out, q.Fen())
+			if complete {
+				out = append(out, q.Fen())
+			}
 		}
 	}
 	return out
